@@ -75,7 +75,16 @@ type bc struct {
 	call, ret int64
 }
 
-type closeRec struct{ call, ret int64 }
+type closeRec struct {
+	call, ret int64
+	// forwarder goroutines found parked inside the broadcaster right after this
+	// Close call returned (guarded by world.mu)
+	parked []string
+}
+
+// nclose is the number of overlapping Close calls issued wherever the
+// workload closes the broadcaster.
+const nclose = 2
 
 type world struct {
 	idx    int
@@ -259,21 +268,46 @@ func (w *world) unleash(s *sub) {
 	}
 }
 
-func (w *world) closeAsync() *closeRec {
-	c := &closeRec{}
+// closeAsync issues nclose overlapping Close calls from separate goroutines.
+// Each one, as its very next action after Close returned, looks for forwarder
+// goroutines of this bubble that are still PARKED inside the broadcaster: a
+// forwarder on its way out after wg.Done() is running or runnable, never
+// parked, so a parked one proves that this Close returned before the
+// forwarders had finished. Client calls in progress (the other Close, a
+// Broadcast or Subscribe waiting for the lock) are not forwarders.
+func (w *world) closeAsync() []*closeRec {
+	var cs []*closeRec
 	w.mu.Lock()
-	c.call = w.stamp()
-	w.closes = append(w.closes, c)
+	for i := 0; i < nclose; i++ {
+		c := &closeRec{call: w.stamp()}
+		w.closes = append(w.closes, c)
+		cs = append(cs, c)
+	}
 	w.mu.Unlock()
-	go func() {
-		if !w.guard("Close", func() { w.b.Close() }) {
-			return
-		}
-		w.mu.Lock()
-		c.ret = w.stamp()
-		w.mu.Unlock()
-	}()
-	return c
+	for _, c := range cs {
+		c := c
+		go func() {
+			var left []string
+			if !w.guard("Close", func() {
+				w.b.Close()
+				for _, g := range mon.BlockedIn("events/broadcaster.(*Broadcaster") {
+					kf := g.KitFrame()
+					if strings.HasSuffix(kf, ".Close") || strings.HasSuffix(kf, ".Broadcast") || strings.HasSuffix(kf, ".Subscribe") {
+						continue
+					}
+					left = append(left, "["+g.State+"] "+kf)
+				}
+			}) {
+				return
+			}
+			w.mu.Lock()
+			c.ret = w.stamp()
+			c.parked = left
+			w.mu.Unlock()
+			rec.Count("close.overlapping_calls_checked", 1)
+		}()
+	}
+	return cs
 }
 
 func (w *world) closeCalled() bool {
@@ -416,7 +450,7 @@ func (w *world) dump() []string {
 			s.id, s.kind, s.gated, s.unleashed, s.given, s.subCall, s.subRet, s.cancelAt, s.cancelBy, strings.Join(vs, " ")))
 	}
 	for _, c := range w.closes {
-		out = append(out, fmt.Sprintf("close call=%d ret=%d", c.call, c.ret))
+		out = append(out, fmt.Sprintf("close call=%d ret=%d parked-at-return=%v", c.call, c.ret, c.parked))
 	}
 	return out
 }
@@ -451,7 +485,11 @@ func (w *world) judge(where string) {
 		subs = append(subs, subSnap{id: s.id, kind: s.kind, open: !s.gated || s.unleashed, subCall: s.subCall, subRet: s.subRet, cancelAt: s.cancelAt, got: append([]recv{}, s.got...)})
 	}
 	var closeCall, closeRet int64 // first Close call, earliest Close return
+	parkedAtReturn := ""
 	for _, c := range w.closes {
+		if len(c.parked) > 0 && parkedAtReturn == "" {
+			parkedAtReturn = fmt.Sprintf("the Close call made at stamp %d returned (stamp %d) while %d forwarder goroutines of the broadcaster were still parked inside it: %v", c.call, c.ret, len(c.parked), c.parked)
+		}
 		if closeCall == 0 || c.call < closeCall {
 			closeCall = c.call
 		}
@@ -461,6 +499,10 @@ func (w *world) judge(where string) {
 	}
 	w.mu.Unlock()
 
+	if parkedAtReturn != "" {
+		w.violation("close-returned-with-forwarder-parked/"+w.mode, where+": "+parkedAtReturn)
+		return
+	}
 	// at most once, only known values, nothing broadcast after Close returned
 	for _, s := range subs {
 		seen := map[int]bool{}
@@ -1118,7 +1160,7 @@ type lop struct {
 	kind string // broadcast | subscribe | close
 	v    int
 	ls   *lsub
-	c    *closeRec
+	cs   []*closeRec
 }
 
 func (m *lmodel) deliver(ls *lsub) {
@@ -1175,7 +1217,9 @@ func (m *lmodel) advance() {
 			case "close":
 				m.doClose()
 				m.closeRan = true
-				m.expClose[op.c] = true
+				for _, c := range op.cs {
+					m.expClose[c] = true
+				}
 			}
 		}
 	}
@@ -1313,15 +1357,17 @@ func lockstep(w *world, rng *mon.RNG) {
 		}
 	}
 	closeOp := func() {
-		c := w.closeAsync()
+		cs := w.closeAsync()
 		switch {
 		case m.cur != nil:
-			m.parked = &lop{kind: "close", c: c}
+			m.parked = &lop{kind: "close", cs: cs}
 			w.closeWhileBlocked = true
 			rec.Count("lockstep.parked_close", 1)
 			w.step("close (parks behind the blocked Broadcast)")
 		default:
-			m.expClose[c] = true
+			for _, c := range cs {
+				m.expClose[c] = true
+			}
 			if !m.closed {
 				m.doClose()
 			}
@@ -1522,7 +1568,7 @@ func TestCheck(t *testing.T) {
 	debug.SetMemoryLimit(128 << 20)
 	rec.Note("rule", "a case is one history against the real Broadcaster[int] inside a synctest bubble, recorded at the client boundary with one atomic logical clock and unique values (g<goroutine>-<id>). (race) 1-4 broadcasting goroutines (plus optionally one started later), 1-5 subscribers that are prompt / slow (read only when handed tokens, in small batches) / stalled (no tokens, >11 values outstanding, i.e. past the 10-slot buffer + the forwarder's hand) / leaving (cancel themselves after k receives, are cancelled by a racing goroutine, or are cancelled while a Broadcast is blocked), some subscribing late or two channels per Subscribe call, Close at the end / while a Broadcast is blocked / racing / in the middle of the resolution, seeded runtime.Gosched perturbation; the harness ends every stall by tokens or cancel, then demands progress (all Broadcast/Subscribe/Close calls returned, nobody on the mutex, by mon.Quiesce) and judges exactly-once, at-most-once, known values, acyclic precedence graph, nothing from a Broadcast called after Close returned. (lockstep) one operation at a time with a quiescence barrier in between, compared step by step with an exact reference (11 outstanding do not block, the 12th does; what is parked behind a blocked Broadcast runs after it), and judged by the same statement-level oracle at every step. Non-trivial = at least one value was delivered; distinct = distinct plan / step list.")
 	rec.Note("require", []string{
-		"judged", "deliveries", "exactly_once_pairs_demanded", "post_close_checked",
+		"judged", "deliveries", "close.overlapping_calls_checked", "exactly_once_pairs_demanded", "post_close_checked",
 		"hist.broadcast_blocked_on_stalled_reader", "hist.goroutine_parked_on_mutex",
 		"hist.departure_while_broadcast_blocked", "hist.departure_released_blocked_broadcast", "hist.resume_released_blocked_broadcast",
 		"hist.close_while_broadcast_blocked", "hist.close_parked_behind_blocked_broadcast", "hist.subscribe_parked_behind_blocked_broadcast",
@@ -1531,6 +1577,7 @@ func TestCheck(t *testing.T) {
 		"lockstep.eleven_outstanding_without_blocking", "lockstep.twelfth_outstanding_blocks",
 	})
 	total := mon.Pick(3000, 150000)
+	rec.Planned(total)
 	for idx := 0; idx < total; idx++ {
 		if !mon.Mine(idx) {
 			continue
